@@ -5,12 +5,14 @@ use crate::relation::diseq::DisequalityConstraint;
 use crate::state::constraint::Constraint;
 use crate::engine::Engine;
 use crate::state::User;
-use std::collections::HashSet;
 use std::rc::Rc;
 
+/// The constraints of a state. The store keeps its constraints in insertion order, so that
+/// the order in which they are re-run after an extension, and with it the order of the
+/// answers, does not depend on the randomised iteration order of a hash set.
 #[derive(Derivative)]
 #[derivative(Debug(bound="U: User"), Clone(bound="U: User"))]
-pub struct ConstraintStore<U, E>(HashSet<Rc<dyn Constraint<U, E>>>)
+pub struct ConstraintStore<U, E>(Vec<Rc<dyn Constraint<U, E>>>)
 where
     U: User,
     E: Engine<U>;
@@ -21,7 +23,7 @@ where
     E: Engine<U>,
 {
     pub fn new() -> ConstraintStore<U, E> {
-        ConstraintStore(HashSet::new())
+        ConstraintStore(Vec::new())
     }
 
     /// Remove irrelevant constraints
@@ -107,17 +109,17 @@ where
                 return dropped;
             }
 
-            let mut normalized = HashSet::new();
-            for storec in self.0.drain() {
+            let mut normalized = Vec::new();
+            for storec in self.0.drain(..) {
                 // All non-subsumable constraints are always carried along
                 if let Some(tree_storec) = storec.downcast_ref::<DisequalityConstraint<U, E>>() {
                     if !tree_newc.subsumes(tree_storec) {
-                        normalized.insert(storec);
+                        normalized.push(storec);
                     } else {
                         dropped.push(storec);
                     }
                 } else {
-                    normalized.insert(storec);
+                    normalized.push(storec);
                 }
             }
             self.0 = normalized;
@@ -148,11 +150,20 @@ where
     }
 
     pub fn take(&mut self, u: &Rc<dyn Constraint<U, E>>) -> Option<Rc<dyn Constraint<U, E>>> {
-        self.0.take(u)
+        // Constraints are identified by address, like in the hash of `dyn Constraint`
+        match self.0.iter().position(|c| **c == **u) {
+            Some(index) => Some(self.0.remove(index)),
+            None => None,
+        }
     }
 
     pub fn insert(&mut self, key: Rc<dyn Constraint<U, E>>) -> bool {
-        self.0.insert(key)
+        if self.0.iter().any(|c| **c == *key) {
+            false
+        } else {
+            self.0.push(key);
+            true
+        }
     }
 
     /// Iterate over constraints that refer to terms in `u`
